@@ -7,11 +7,8 @@ const vxMaxMsg = 65535 + 20 + 64
 // vxRawBuf: a buffer of arbitrary content, length 0..65535+20+64 and capacity
 // slack 0..64 (0 = the capacity ends exactly at the end of the data).
 func vxRawBuf() []byte {
-	n, c := vxInt(), vxInt()
-	vxAssume(0 <= n)
-	vxAssume(n <= vxMaxMsg)
-	vxAssume(n <= c)
-	vxAssume(c <= n+64)
+	n := vxLen(vxMaxMsg)
+	c := n + vxLen(64)
 	return vxBytes(n, c)
 }
 
@@ -85,8 +82,7 @@ func vh_C01_selftest() {
 // vxWitness: an arbitrary index 0 <= w <= n; callers guard uses with w < n, so
 // that "for every index" is decided as unsatisfiability of "exists an index".
 func vxWitness(n int) int {
-	w := vxInt()
-	vxAssume(0 <= w)
+	w := vxLen(1<<17 - 1)
 	vxAssume(w <= n)
 	return w
 }
@@ -96,10 +92,9 @@ func vxPrevRaw() []byte {
 	if vxChoose(2) == 0 {
 		return nil
 	}
-	n, c := vxInt(), vxInt()
-	vxAssume(0 <= n)
+	c := vxLen(vxMaxMsg)
+	n := vxLen(vxMaxMsg)
 	vxAssume(n <= c)
-	vxAssume(c <= vxMaxMsg)
 	return vxBytes(n, c)
 }
 
@@ -143,9 +138,7 @@ type vxReader struct{ calls int }
 // Read: the documented io.Reader contract only — 0 <= n <= len(p), any bytes, any error.
 func (r *vxReader) Read(p []byte) (int, error) {
 	r.calls++
-	n := vxInt()
-	vxAssume(0 <= n)
-	vxAssume(n <= len(p))
+	n := vxLen(len(p))
 	copy(p, vxBytes(n, n))
 	if vxBool() {
 		return n, errVxCallback
